@@ -375,12 +375,25 @@ class ColorService:
             document.rtf_page_footer,
         ]
 
+        # Border colors of table-rendered components (footnote, source and the
+        # column headers below) are emitted as \brdrcf like the body's
+        border_color_attrs = (
+            "border_color_left",
+            "border_color_right",
+            "border_color_top",
+            "border_color_bottom",
+            "border_color_first",
+            "border_color_last",
+        )
+
         for component in components:
             if component:
                 extract_colors_from_attribute(getattr(component, "text_color", None))
                 extract_colors_from_attribute(
                     getattr(component, "text_background_color", None)
                 )
+                for attr_name in border_color_attrs:
+                    extract_colors_from_attribute(getattr(component, attr_name, None))
 
         # Collect colors from column headers
         if document.rtf_column_header:
@@ -396,6 +409,10 @@ class ColorService:
                             extract_colors_from_attribute(
                                 getattr(header, "text_background_color", None)
                             )
+                            for attr_name in border_color_attrs:
+                                extract_colors_from_attribute(
+                                    getattr(header, attr_name, None)
+                                )
             else:
                 # Flat format
                 for header in headers:
@@ -406,6 +423,10 @@ class ColorService:
                         extract_colors_from_attribute(
                             getattr(header, "text_background_color", None)
                         )
+                        for attr_name in border_color_attrs:
+                            extract_colors_from_attribute(
+                                getattr(header, attr_name, None)
+                            )
 
         return list(used_colors)
 
